@@ -164,9 +164,15 @@ class NamedObject:
             return
           raise FieldReassignError(f"The attempt to assign hardware construct to field {name} is illegal:\n"
                                    f" - top{repr(s)[1:]} already has field {name} with type {type(getattr( s, name ))}.")
-        fields.add( name )
 
         ud = obj._dsl
+        if hasattr( ud, "full_name" ) and hasattr( ud, "parent_obj" ):
+          # s.alias = s.w: one object under two names would be renamed and
+          # simulated as two independent values
+          raise FieldReassignError(f"The attempt to assign hardware construct to field {name} is illegal:\n"
+                                   f" - it already is field {ud.my_name} of top{repr(ud.parent_obj)[1:]}. "
+                                   f"Declare another signal and connect the two instead.")
+        fields.add( name )
 
         ud.parent_obj = s
         ud.level      = sd.level + 1
